@@ -2,6 +2,8 @@
 from propcommon import COMMON_MODELLED
 PROP = dict(
         gotest="TestC20",
+        translator="arithC20",
+        extra_props=["ArithTieC20"],
         extra_gotests=[("TestZdec", "Zdec")],
         model="coq/Models/Shield.v (exact: order ids/counters, escrow accounts, owner checks, trigger comparisons, order of escrow return / inner call / "
               "removal in ExecuteOrders, which errors revert and which are swallowed (no cache context), nil-dereference panic for a skipped spot order, "
@@ -10,7 +12,7 @@ PROP = dict(
               "GetAssetPriceFromDenomInToDenomOut computes from the two oracle price records and the decimals: Dec(P).Quo(10^dec) per side, "
               "Mul by 1, ErrPriceNotFound on zero, Quo; not modelled: the amm spot-price fallback when the oracle has no record / the per-unit value rounds to zero)",
         coq_deps=["Base/", "Models/Shield.v", "Proofs/ShieldProofs.v", "Run/ShieldRun.v", "Models/ShieldPrice.v", "Proofs/ShieldPriceProofs.v",
-                  "Run/ShieldPriceRun.v", "Props/C20.v"],
+                  "Run/ShieldPriceRun.v", "Props/C20.v", "Generated/ArithC20.v", "Proofs/ArithTieTac.v", "Proofs/ArithTieC20.v", "Props/ArithTieC20.v"],
         rule="histories of 34-60 ops over 4 funded users on a fresh real app with the market fixture, 3 of 4 with the 18-decimals asset aweth (2000 USD) and its "
              "oracle pool (MarketOpts.Extra18): MsgCreateSpotOrder (stop-loss/limit-sell/limit-buy/market-buy, "
              "9 denom pairs incl. aweth/uusdc, uusdc/aweth, aweth/uatom, uatom/aweth (market prices near 1e-9 / 1e+9 per base unit), wrong amount/target denoms; absolute "
@@ -20,7 +22,10 @@ PROP = dict(
              "order's trigger (also by steps below the resolution of the code's per-base-unit value), +-1..25 %, +0.03 % / -0.015 % / +7e-9 (prices with many digits), price removed, blocks of 5s..3700s; amounts 0, 1, 1e3, 0.1%, 1/3, all-1, all, all+1 of the wallet and 1..1e12 per decade; "
              "trigger prices at / one ulp above / below the market, +-10 %, 0, 3x. distinct = distinct (op,result,user) sequence; non-trivial = at least one "
              "successful state-changing transaction",
-        trusted_base=["the inner call's result/transfers are read from the implementation by running each order attempt on a scratch branch; the spot market price the "
+        trusted_base=["tools/gotrans arith (Go AST + go/types -> Gallina over Base/Zdec.v, Base/U64.v): the method table of coq/Generated/ARITH_README.md; ties the oracle path of "
+                      "GetAssetPriceFromDenomInToDenomOut and the skip comparisons of the four order executors to market_price_fixed / triggered; which executor "
+                      "ExecuteOrders calls for which OrderType, and what GetAssetPriceAndDecimals / GetAssetPrice return, is covered by the correspondence run only",
+                      "the inner call's result/transfers are read from the implementation by running each order attempt on a scratch branch; the spot market price the "
                       "replay is driven with is the keeper's value, which Coq recomputes (Models/ShieldPrice.v) from the oracle records the harness reads from x/oracle "
                       "and the fixture's decimals on every attempt with a record on both sides; without a record (amm spot-price fallback) the keeper's value is taken as is",
                       "the harness judges 'trigger met' by the exact rational (P_base/10^dec_base)/(P_quote/10^dec_quote) (big.Rat), not by the keeper's value; within 2 units "
